@@ -51,7 +51,7 @@ def random_terms(rng, n, w, m):
 
 
 def gen_atoms(rng, n, tag="S", id_base=1000.0, cell="ortho", kinds=None, tables=None, extras=None, pair=None,
-              n_types=None, max_terms=4, span=None, labels_with_comment=False, unused_types=False, scale=12.0):
+              n_types=None, max_terms=4, span=None, labels_with_comment=False, unused_types=False, scale=12.0, shared_elements=None):
     """Build a real mofun Atoms object.
     kinds:  {kind: number of terms} (default random 0..max_terms)
     tables: {kind: bool} coefficient table present? (default random; a table is present only if the kind has terms,
@@ -62,7 +62,9 @@ def gen_atoms(rng, n, tag="S", id_base=1000.0, cell="ortho", kinds=None, tables=
     from mofun import Atoms
     masses = real_masses()
     nt = int(n_types or rng.integers(1, 4))
-    type_el = [ELEMENT_POOL[int(i)] for i in rng.choice(len(ELEMENT_POOL), size=nt, replace=False)]
+    # one case in three: several atom types share an element (force-field types such as C_R / C_3), as in LAMMPS-typed files
+    share = bool(rng.integers(3) == 0) if shared_elements is None else shared_elements
+    type_el = [ELEMENT_POOL[int(i)] for i in rng.choice(len(ELEMENT_POOL) if not share else max(1, nt - 1), size=nt, replace=share)]
     kw = {}
     cellm = None
     if cell is not None:
